@@ -40,7 +40,7 @@ def run(ctx):
     def struct(f):
         if isinstance(f, Phi):
             return merge(f.cond, struct(f.a), struct(f.b))
-        return I.heap[f.id]["structure"]
+        return I.getattr(f, "structure")
 
     def alts(v):
         return alts(v.a) + alts(v.b) if isinstance(v, Phi) else [v]
@@ -129,6 +129,24 @@ def run(ctx):
     for label, res, operand in (("n*f", nf, f), ("n*f [single fragment]", nf1, f1), ("1*f", one, f), ("n*empty", ne, empty)):
         ctx.check(all(x is not operand for x in alts(res)), "R3", f"{label} is a new object on every path",
                   f"{label} can return its own operand, so a later += on the product rewrites the operand", s_mul)
+    # ... and shares no mutable state with it: no dict / list held by the product is the very object held by the operand
+    # (a shallow copy that carries a count table along is rewritten through the product's +=)
+    def mutables(obj):
+        return [(k_, v_) for k_, v_ in I.heap[obj.id].items() if isinstance(v_, (dict, list))]
+    for label, res, operand in (("n*f", nf, f), ("n*f [single fragment]", nf1, f1), ("1*f", one, f)):
+        shared = sorted(k1 for x in alts(res) if isinstance(x, SymObj) and x is not operand
+                        for k1, v1 in mutables(x) for _, v2 in mutables(operand) if v1 is v2)
+        ctx.check(not shared, "R3", f"{label} shares no mutable container with its operand",
+                  f"the product and the operand hold the same {shared} object: a later += on either rewrites the other", s_mul)
+    # the sequel spelled out: g = 1*f; g += h leaves f as it was (atoms and mass)
+    f_keep = mk({Fe: q[0], ionI: q[1]})
+    atoms(f_keep); I.getattr(f_keep, "mass")
+    before_atoms = dict(atoms(f_keep))
+    g_one = I.lib.binop(I, MUL, sp.Integer(1), f_keep)
+    atoms(g_one)
+    g_one = I.call(I.getattr(g_one, "__iadd__"), [mk({O: q[2]})], {})
+    dict_eq(ctx, "R3", "after g = 1*f; g += h the operand f still has its own atoms", atoms(f_keep), before_atoms, s_mul)
+    dict_eq(ctx, "R3", "after g = 1*f; g += h the product has the atoms of both", atoms(g_one), {Fe: q[0], ionI: q[1], O: q[2]}, s_iadd)
     ctx.floor("R1", 18)
 
     # ---- R2 mass / charge / fractions per atom kind --------------------------
@@ -171,7 +189,19 @@ def run(ctx):
     I.call(I.getattr(ssum, "__iadd__"), [fb], {})
     eq(ctx, "R2", "mass(h) after h += g, h.mass having been read before", I.getattr(ssum, "mass"), Ma + 2 * Mb, s_mass)
     eq(ctx, "R2", "mass(f) is unchanged by the operations on its results", I.getattr(fa, "mass"), Ma, s_mass)
-    ctx.floor("R2", 35)
+    # one atom spread over several fragments and a group (a hydrate, CH3CH2OH, f+g sharing an element): its fraction counts
+    # every occurrence, and the fractions still sum to one
+    rep = I.call(fm, [[(q[0], Fe), (q[1], [(q[2], Fe), (q[3], O)]), (q[4], O)]], {})
+    Mrep = (q[0] + q[1] * q[2]) * m["element"] + (q[1] * q[3] + q[4]) * mO
+    mfr = I.getattr(rep, "mass_fraction")
+    eq(ctx, "R2", "mass_fraction of an atom that occurs in several fragments counts every occurrence", mfr[Fe],
+       (q[0] + q[1] * q[2]) * m["element"] / Mrep, fsite(ctx, "formulas.Formula.mass_fraction"))
+    eq(ctx, "R2", "mass fractions sum to one when atoms repeat across fragments", sum(mfr.values()), 1, fsite(ctx, "formulas.Formula.mass_fraction"))
+    eq(ctx, "R2", "mass when atoms repeat across fragments", I.getattr(rep, "mass"), Mrep, s_mass)
+    ssum2 = I.lib.binop(I, ADD, mk({Fe: q[0], O: q[1]}), mk({Fe: q[2]}))
+    eq(ctx, "R2", "mass_fraction of f+g for an element both share", I.getattr(ssum2, "mass_fraction")[Fe],
+       (q[0] + q[2]) * m["element"] / ((q[0] + q[2]) * m["element"] + q[1] * mO), fsite(ctx, "formulas.Formula.mass_fraction"))
+    ctx.floor("R2", 39)
 
     # ---- R3 operands unchanged ----------------------------------------------
     ctx.check(struct(f) is before_f or struct(f) == before_f, "R3", "f unchanged by f+g, n*f, formula(f)",
@@ -211,7 +241,7 @@ def run(ctx):
         a1.pop(Fe, None)
         dict_eq(ctx, "R3", "editing the mapping returned by .atoms does not change the formula", atoms(f), {Fe: q[0], ionI: q[1]},
                 fsite(ctx, "formulas.Formula.atoms"))
-    ctx.floor("R3", 9)
+    ctx.floor("R3", 14)
 
     # ---- R4 every produced structure is immutable at every level -------------
     produced = {"f+g": h, "n*f": nf, "n*f single": nf1, "1*f": one, "formula(dict)": f, "formula(seq)": I.call(fm, [seq], {}),
